@@ -236,6 +236,44 @@ def run_random(out, prop, tier, seed, escalate=False):
                        "pairs executed on the real Tcb, counted by the harness; evaluations = events validated by TLC")
 
 
+def run_random_isn(out, tier, seed):
+    """C12 on random schedules: every schedule the random driver produced (real sizes, its own pair of ISNs) is
+    executed again under ISN pairs that make either side's sequence space wrap at a chosen distance into the
+    connection -- in the handshake, inside the first segments, at segment boundaries, after a window -- and the
+    ISN-normalised behaviour of every variant is compared with that of the pair (100, 300)."""
+    rng = random.Random(seed + 12)
+    offs = [0, 1, 2, 500, 1000, 1449, 1450, 1451, 2000, 2900, 3000, 5000, 21845, 43690, 65535, 65536, 70000, 100000]
+    total = {"runs": 0, "isn_mismatch": 0, "events": 0}
+    for prof in ("close", "data", "late"):
+        d = workdir("tcp-C12")
+        sp0, tp0 = os.path.join(d, "isn-" + prof + ".sched0.ndjson"), os.path.join(d, "isn-" + prof + ".trace0.ndjson")
+        n = (400 if prof != "late" else 150) if tier == "thorough" else (80 if prof != "late" else 30)
+        hv_hangsafe(HV_CORE, ["tcb-drive", "--seed", str(seed * 977 + 5), "--profile", prof, "--steps", "110", "--out", tp0, "--sched", sp0], n)
+        scheds = read_ndjson(sp0)
+        for s in scheds:
+            if s.get("hang"):
+                continue
+            variants = [[100, 300]]
+            for _ in range(3):
+                da, db = rng.choice(offs), rng.choice(offs)
+                variants.append([(2 ** 32 - 1 - da) % 2 ** 32, (2 ** 32 - 1 - db) % 2 ** 32])
+            variants.append([(2 ** 31 - 1 - rng.choice(offs)) % 2 ** 32, (2 ** 31 + rng.choice(offs)) % 2 ** 32])
+            s["isns"] = variants
+        sp, tp = os.path.join(d, "isn-" + prof + ".sched.ndjson"), os.path.join(d, "isn-" + prof + ".trace.ndjson")
+        write_ndjson(sp, [s for s in scheds if not s.get("hang")])
+        st = hv(HV_CORE, ["tcb-replay", "--in", sp, "--out", tp], timeout=1800)
+        res = tlc_trace("TraceTcp.tla", os.path.join(SPEC, "TraceTcp.cfg"), tp, "ti-" + prof, timeout=1800)
+        judge(out, "C12", res, sp, "tcb-replay")
+        total["runs"] += st.get("runs", 0)
+        total["isn_mismatch"] += st.get("isn_mismatch", 0)
+        total["events"] += res["result"]["events"]
+        out.cov["traces_validated_against_impl"] += res["result"]["runs"]
+        out.cov["evaluations"] += res["result"]["events"]
+        log("  random %s schedules x 5 ISN pairs: %d runs, %d events validated, %d ISN-dependent differences" % (
+            prof, st.get("runs", 0), res["result"]["events"], st.get("isn_mismatch", 0)))
+    out.cov["isn_variants_of_random_schedules"] = total
+
+
 def run_findings(out, prop):
     """Re-executes the schedule of every open finding of this property (KNOWN-FINDING lines)."""
     for f in open_findings(prop):
@@ -306,4 +344,7 @@ def run(prop, tier, seed, out, replay=None):
     tot = run_replay(out, prop, tier, seed)
     log("[%s] random schedules on the real Tcb validated by TraceTcp (T)" % prop)
     run_random(out, prop, tier, seed, escalate=tot["drift_steps"] > 0)
+    if prop == "C12":
+        log("[C12] random schedules executed again under wrapping ISN pairs, normalised behaviour compared")
+        run_random_isn(out, tier, seed)
     run_findings(out, prop)
